@@ -20,7 +20,7 @@ Slack == 1               \* tolerance (ticks) for bounded-liveness clauses
 MsgEvents == {"cb_b", "cb_e", "pre_b", "pre_e", "onerr_b", "onerr_e", "post_b",
               "post_e", "postsave_b", "postsave_e", "ack", "ack_e", "dep_open",
               "dep_opened", "dep_close", "start", "end", "save_b", "save_e"}
-ErrOutcomes == {"exc", "base", "nores", "cancel", "depfail", "cerr"}
+ErrOutcomes == {"exc", "base", "nores", "cancel", "depfail", "cerr", "falsy"}
 Teardown == {"gen", "agen", "cm", "acm"}
 
 Max2(a, b) == IF a >= b THEN a ELSE b
@@ -200,6 +200,7 @@ PerMsg(c, o, m, L, ev) ==
              \cup (IF oc = "ret" /\ ~(~isErr /\ valOk /\ q.s = "none") THEN {"C07_ReturnValue"} ELSE {})
              \cup (IF oc \in {"exc", "base"} /\ ~(isErr /\ errOk /\ q.s = oc) THEN {"C07_Error"} ELSE {})
              \cup (IF oc = "cerr" /\ ~(isErr /\ errOk /\ q.s = "cancel") THEN {"C07_Error"} ELSE {})
+             \cup (IF oc = "falsy" /\ ~(isErr /\ errOk /\ q.s = "exc") THEN {"C07_Error"} ELSE {})
              \cup (IF oc = "cancel" /\ ~(isErr /\ q.s = "timeout") THEN {"C07_TimeoutError"} ELSE {})
              \cup (IF oc = "depfail" /\ ~(isErr /\ q.s = "depfail") THEN {"C07_Error"} ELSE {})
              \cup (IF ~lblOk THEN {"C07_Labels"} ELSE {})
